@@ -129,19 +129,19 @@ Definition envl_getitem3 : fdef :=
      f_body := [(SUnpack [(TName "obj"); (TName "key"); (TName "default")] (XAttr (XName "self") "operands")); (SAssign (TName "obj") (XCall (XName "obj") [(XName "row")] None)); (SIf (XCompare (XName "obj") [(CIs, (XConst PNone))]) [(SReturn (Some (XConst PNone)))] []); (SReturn (Some (XCallMethod (XName "obj") "get" [(XCall (XName "key") [(XName "row")] None); (XCall (XName "default") [(XName "row")] None)])))];
      f_gen := false |}.
 
-(* beanquery.query_env.only_inventory (BQL only); no theorem *)
+(* beanquery.query_env.only_inventory (BQL only); theorem in Proofs/SrcInvFuncs.v *)
 Definition envlx_only_inventory : fdef :=
   {| f_params := ["currency"; "inventory_"];
      f_body := [(SReturn (Some (XCallMethod (XName "inventory_") "get_currency_units" [(XName "currency")])))];
      f_gen := false |}.
 
-(* beanquery.query_env.empty_inventory (BQL empty); no theorem *)
+(* beanquery.query_env.empty_inventory (BQL empty); theorem in Proofs/SrcInvFuncs.v *)
 Definition envlx_empty_inventory : fdef :=
   {| f_params := ["inventory_"];
      f_body := [(SReturn (Some (XCallMethod (XName "inventory_") "is_empty" [])))];
      f_gen := false |}.
 
-(* beanquery.query_env.filter_currency_inventory (BQL filter_currency); no theorem *)
+(* beanquery.query_env.filter_currency_inventory (BQL filter_currency); theorem in Proofs/SrcInvFuncs.v *)
 Definition envlx_filter_currency_inventory : fdef :=
   {| f_params := ["inv"; "currency"];
      f_body := [(SReturn (Some (XPrim "beancount.core.inventory.Inventory" [(XListComp (XName "pos") "pos" (XName "inv") (Some (XCompare (XAttr (XAttr (XName "pos") "units") "currency") [(CEq, (XName "currency"))])))])))];
